@@ -9,6 +9,7 @@ import (
 	"go/types"
 	"sort"
 	"strings"
+	"time"
 
 	"zsym/smt"
 )
@@ -84,6 +85,8 @@ type Path struct {
 
 	Steps    int64
 	MaxSteps int64
+	// WallDeadline: no path runs beyond it (zero: no limit)
+	WallDeadline time.Time
 
 	Inputs           []InputRec
 	Forks            []int32 // values returned by ForkN, in order (for native replay)
